@@ -611,7 +611,10 @@ class XSlicesAgreeSpec(SeqSpec):
         cases = []
         for _ in range(n):
             l = g.vals()
-            if rng.random() < 0.5:
+            if rng.random() < 0.12:
+                # huge chunk sizes: every positive size is documented to work
+                cases.append({"component": "xs", "ops": [], "cfg": {"fn": "chunk", "l": l, "n": "maxint-%d" % rng.choice([0, 1, 2, 3, 7])}})
+            elif rng.random() < 0.5:
                 cases.append({"component": "xs", "ops": [], "cfg": {"fn": "chunk", "l": l, "n": rng.choice([1, 1, 2, 3, 5, len(l) + 1])}})
             else:
                 cases.append({"component": "xs", "ops": [], "cfg": {"fn": "runs", "l": l, "r": g.rel()}})
@@ -627,7 +630,8 @@ class XSlicesAgreeSpec(SeqSpec):
         cfg = case["cfg"]
         l = cfg["l"]
         if cfg["fn"] == "chunk":
-            exp = [l[i:i + cfg["n"]] for i in range(0, len(l), cfg["n"])]
+            n = cfg["n"] if not isinstance(cfg["n"], str) else (1 << 63) - 1 - int(cfg["n"][len("maxint-"):])
+            exp = [l[i:i + n] for i in range(0, len(l), n)]
         else:
             exp = runs_of(l, cfg["r"])
         got = obs["obs"][0]
